@@ -205,6 +205,9 @@ def run(run):
                 if bad:
                     run.violation(('bitmap',) + tuple(bad[0]), bad[1], {'kind': 'behaviour', 'behaviour': beh})
         run.notes['behaviours_with_at_least_one_link'] = nlinks
+        # markers on elements whose Table B entry depends on the master table version, decoded alternately under three
+        # versions by ONE Decoder in one process: the marker follows the element of the message at hand
+        fm94.cross_version_pass(run, wd, ('decode', 'encode'), seed())
     finally:
         rm_workdir(wd)
     run.assumptions = ['204 is closed before the bitmap operator (204 across marker operators is outside WF)',
